@@ -75,6 +75,26 @@ var intEncs = []intEnc{
 	{"int", encode.Int{}, 8, true, func(u uint64) interface{} { return int(int64(u)) }},
 }
 
+// viaEncs: the encoders the package's factories hand out (EncoderOf a value,
+// GetSliceEltEncoder of a slice, EncoderByKind): encoders like any other, with the same
+// on-disk layout as the type they are asked for.  A factory that fails yields a nil encoder,
+// which every item then reports as a panic.
+func viaEncs() []intEnc {
+	out := []intEnc{}
+	mk := func(name string, w int, f func(uint64) interface{}, zero, slice interface{}, kind reflect.Kind) {
+		e1, _ := encode.EncoderOf(zero)
+		e2, _ := encode.GetSliceEltEncoder(slice)
+		e3, _ := encode.EncoderByKind(kind)
+		out = append(out, intEnc{name + "-of", e1, w, false, f}, intEnc{name + "-slice", e2, w, false, f}, intEnc{name + "-kind", e3, w, false, f})
+	}
+	mk("u16", 2, func(u uint64) interface{} { return uint16(u) }, uint16(0), []uint16{}, reflect.Uint16)
+	mk("u32", 4, func(u uint64) interface{} { return uint32(u) }, uint32(0), []uint32{}, reflect.Uint32)
+	mk("u64", 8, func(u uint64) interface{} { return uint64(u) }, uint64(0), []uint64{}, reflect.Uint64)
+	return out
+}
+
+func allIntEncs() []intEnc { return append(append([]intEnc{}, intEncs...), viaEncs()...) }
+
 func codecItem(e encode.Encoder, v interface{}, w int, junk []byte) (it Ev) {
 	neg, mag := negMag(bigOf(v), w)
 	it = Ev{"neg": neg, "mag": mag, "enc": []int{}, "dn": -1, "dneg": 0, "dmag": []int{}, "size": -1, "esize": -1, "pan": ""}
@@ -175,6 +195,21 @@ func genCodec(t *Tracer, m *Meta, tier string, seed int64) {
 			m.class("sampled:" + ie.name)
 		}
 		flush()
+	}
+	// the encoders handed out by the factories
+	for _, ie := range viaEncs() {
+		batch := []interface{}{}
+		bits := uint(8 * ie.w)
+		for b := uint(0); b < bits; b++ {
+			for _, u := range []uint64{1 << b, 1<<b - 1, ^(uint64(1) << b)} {
+				batch = append(batch, codecItem(ie.e, ie.mk(u), ie.w, junkBytes(r)))
+			}
+		}
+		for i := 0; i < 200; i++ {
+			batch = append(batch, codecItem(ie.e, ie.mk(r.Uint64()>>uint(r.Intn(64))), ie.w, junkBytes(r)))
+		}
+		emitCodecBatch(t, m, ie, batch)
+		m.class("factory:" + ie.name)
 	}
 	// String16: every length class
 	lens := []int{0, 1, 2, 3, 127, 128, 255, 256, 257, 1000, 32767, 32768, 65534, 65535}
@@ -1451,7 +1486,7 @@ func miscReplay(t *Tracer, name string, e map[string]interface{}) bool {
 	}
 	switch name {
 	case "codec":
-		for _, ie := range intEncs {
+		for _, ie := range allIntEncs() {
 			if ie.name == e["enc"].(string) {
 				items := []interface{}{}
 				for _, x := range e["items"].([]interface{}) {
